@@ -8,6 +8,7 @@ TRUSTED_BASE = [
     "hand-written model coq/Model/ShutdownM.v of shutdown.rs: a broadcast(1) notification (a value sent after a subscription stays pending for that subscriber) and an mpsc channel whose senders are the completion guards",
     "translator tools/gen_tables.py -> Generated/ShutdownFacts.v (channels, submit, completion drops the original sender then waits for the channel to close, guard = clone of the sender if it still exists, wait tolerates Lagged; every listener / tunnel / service handler registers both halves under one lock and winds its codec down gracefully)",
     "tokio's broadcast and mpsc channels are library code: their behaviour is what the scripted runs exercise",
+    "hand-written model h1_close of coq/Model/ShutdownM.v (the orderly close of an HTTP/1.1 session against the time its client takes what is left); facts HTTP1_ORDERLY_CLOSE_BOUNDED, HTTP1_GRACEFUL_SHUTDOWN_TIMEOUT_MS",
     "extraction + driver.ml, cross-checked against vm_compute; harness door verif::shutdown (register / wait / finish) with the coordinator holding the lock while it awaits completion, as endpoint/src/main.rs does",
 ]
 ASSUMPTIONS = [
@@ -15,7 +16,7 @@ ASSUMPTIONS = [
     "the graceful wind-down of each codec (HTTP/2 GOAWAY, HTTP/1.1 flush and close, QUIC close) is the codec's graceful_shutdown: its call after the notification is a regenerated structural fact, its effect is covered for HTTP/1.1 by C08's end-of-stream cases",
 ]
 RULE = ("interleavings of up to 14 operations over up to 5 participants: register, start waiting, submit (once or twice), wind down (before or after observing), "
-        "coordinator starts the completion wait, observe; late registration after completion has returned; participants that never wait; real tunnel / ping / speedtest sessions as participants (completion waits for a live session, a submission winds it down); the real endpoint with live sessions of every transport, among them an HTTP/1.1 tunnel whose upload is stalled; the known hazard "
+        "coordinator starts the completion wait, observe; late registration after completion has returned; participants that never wait; real tunnel / ping / speedtest sessions as participants (completion waits for a live session, a submission winds it down); the real endpoint with live sessions of every transport, among them an HTTP/1.1 tunnel whose upload is stalled and one whose download is stalled (a client that reads nothing); the known hazard "
         "(registration while completion is awaited under the lock, one worker thread); non-trivial = every case; distinct = distinct script")
 
 
@@ -88,9 +89,11 @@ def gen_cases(rng, ctx):
     # goodbye seen by each client (HTTP/1.1 close, HTTP/2 GOAWAY, QUIC close), completion after the last one is done.
     # The QUIC session races the listener that feeds it: repeated, because the order is the scheduler's choice
     # 64 = an HTTP/1.1 tunnel whose upload is stalled (the destination accepts and never reads, the client has filled the path)
-    for mask in ([1, 2, 8, 16, 31, 27] + [4] * (10 if thorough else 5) + [5, 6, 12, 20, 32, 33, 48, 64, 65, 91]):
+    # 128 = an HTTP/1.1 tunnel whose download is stalled (the destination writes without end, the client has read the response head and
+    #       reads nothing more): the session cannot flush, and still the wait for completion must come to an end
+    for mask in ([1, 2, 8, 16, 31, 27] + [4] * (10 if thorough else 5) + [5, 6, 12, 20, 32, 33, 48, 64, 65, 91, 128] + ([129, 192] if thorough else [])):
         l = line("c19_front", [[mask]])
-        lm = line("c19_front", [[mask & 95]])
+        lm = line("c19_front", [[mask & 223]])
         cases.append(Case(l, lm, kind="endpoint:sessions-%d" % mask, nontrivial=mask != 0, meta={"front": True, "mask": mask}))
     # the real binary (endpoint/src/main.rs) as a process: live sessions, SIGINT, what each client sees, the exit
     for mask in ([31, 2, 4, 1, 8, 16, 6] + ([31, 27, 21, 0] if thorough else [])):
@@ -141,7 +144,8 @@ def known_finding(case, kind, msg, known):
 
 NAMES = {1: "HTTP/1.1 tunnel in use", 2: "HTTP/2 connection with an open tunnel stream", 4: "HTTP/3 (QUIC) connection with an open tunnel stream",
          8: "idle TLS connection", 16: "idle HTTP/2 connection",
-         64: "HTTP/1.1 tunnel whose upload is stalled (the destination accepts and never reads, the client has uploaded until nothing more was taken)"}
+         64: "HTTP/1.1 tunnel whose upload is stalled (the destination accepts and never reads, the client has uploaded until nothing more was taken)",
+         128: "HTTP/1.1 tunnel whose download is stalled (the destination writes without end, the client has read the response head and reads nothing more)"}
 
 
 def judge(case, impl, model, spec, ctx):
@@ -174,15 +178,20 @@ def judge(case, impl, model, spec, ctx):
         if premature:
             return [("violation", "real endpoint with its listener%s running and nothing submitted: waiting for completion returned within 300 ms "
                                   "(a participant that registered before the wait is not counted)" % ("" if not (mask & 31) else " and sessions {%s}" % ", ".join(v for k, v in NAMES.items() if mask & k)))]
-        mask = mask & 95
-        if (mask & 64) and not (est & 64) and est == mask & 31:
-            # the upload never stalled within 256 MiB: this machine's buffers are not what the scenario assumes
+        mask = mask & 223
+        if (mask & 192) and (est | 192) == (mask | 192) and est != mask:
+            # the upload never stalled within 256 MiB / the download did not stall within 15 s: this machine's buffers are not
+            # what the scenario assumes
             ctx.setdefault("skipped_env", []).append(case.kind)
             return []
         if est != mask:
             return [("disagree", "%s: only sessions %d of %d could be established" % (what, est, mask))]
         if not listener:
             return [("violation", "%s: Core::listen did not return Ok within 3 s" % what)]
+        if (mask & 128) and not completion:
+            # "without hanging": a client that merely stops reading must not be able to keep completion from returning
+            return [("violation", "%s: waiting for completion had not returned 20 s after the submission; the session of the client that does not read "
+                                  "can neither flush nor finish, and completion returns only when that client goes away" % what)]
         missing = [v for k, v in NAMES.items() if (mask & k) and not (wound & k)]
         if missing:
             return [("violation", "%s: no graceful wind-down seen by the client within 3 s for: %s" % (what, "; ".join(missing)))]
